@@ -62,6 +62,7 @@ let show_action = function
   | PassRef i -> Printf.sprintf "ref%d" (int_of_nat i) | Copy i -> Printf.sprintf "copy%d" (int_of_nat i)
   | Claim i -> Printf.sprintf "claim%d" (int_of_nat i) | Call -> "call" | ResultTemp -> "resulttemp"
   | FreeArg k -> Printf.sprintf "freearg%d" (int_of_nat k)
+  | FreeArgCast k -> Printf.sprintf "freeargcast%d" (int_of_nat k)
 
 let show_argval = function
   | VRet -> "ret" | VPrim i -> Printf.sprintf "prim%d" (int_of_nat i)
@@ -76,6 +77,42 @@ let () =
       (* representation of one type on both sides *)
       let t = parse_ty t in
       Printf.printf "TY %s | %s | wf=%d\n" (show_ll (ll_ty t)) (show_c (c_ty t)) (if wf_ty t then 1 else 0)
+    | "GEN" :: name :: ret :: kinds :: ps ->
+      (* generic extern function: gv:<inst> = "T Liste" by value, gr:<inst> = Referenz mentioning T; ret GL:<inst> = "eine T Liste".
+         The signature is lowered from the generic declaration, the plan from the instantiation. *)
+      let is_list_ty t = (match t with TList _ -> true | _ -> false) in
+      let gps = List.map (fun p ->
+        let i = String.index p ':' in
+        let tag = String.sub p 0 i and t = parse_ty (String.sub p (i + 1) (String.length p - i - 1)) in
+        match tag with
+        | "gv" -> (GListVal, { p_ty = t; p_ref = false }, true)
+        | "gr" -> (GRef (is_list_ty t), { p_ty = t; p_ref = true }, true)
+        | "r" -> (GConcrete { p_ty = t; p_ref = true }, { p_ty = t; p_ref = true }, false)
+        | _ -> (GConcrete { p_ty = t; p_ref = false }, { p_ty = t; p_ref = false }, false)) ps in
+      let gret, iret =
+        if ret = "-" then (GRetConcrete None, None)
+        else if String.length ret > 3 && String.sub ret 0 3 = "GL:" then (GRetList, Some (parse_ty (String.sub ret 3 (String.length ret - 3))))
+        else (GRetConcrete (Some (parse_ty ret)), Some (parse_ty ret)) in
+      let gs = { g_name = str_of_string name; g_params = List.map (fun (g, _, _) -> g) gps; g_ret = gret } in
+      let inst = { s_name = str_of_string name; s_params = List.map (fun (_, p, _) -> p) gps; s_ret = iret } in
+      let flags = List.map (fun (_, _, f) -> f) gps in
+      let ks = if kinds = "-" then [] else List.init (String.length kinds) (fun i -> if kinds.[i] = 't' then ArgTemp else ArgVar) in
+      let ir = lower_gsig gs and c = c_gsig gs in
+      let plan = call_plan_g inst flags ks in
+      let runres =
+        match run (init_state (temp_indices O inst.s_params ks)) plan with
+        | None -> "RUN error"
+        | Some st ->
+          Printf.sprintf "RUN ok freed=%s slots=%d temps=%d result=%d args=%s" (ints st.st_freed) (List.length st.st_slots)
+            (List.length st.st_temps) (if st.st_result_owned then 1 else 0) (String.concat "," (List.map show_argval st.st_args)) in
+      let cmp a b = a = b || loose a b in
+      let ok = ir.is_name = c.cs_name && cmp (ll_rep ir.is_ret) (c_rep c.cs_ret)
+               && List.length ir.is_params = List.length c.cs_params
+               && List.for_all2 (fun a b -> cmp (ll_rep a) (c_rep b)) ir.is_params c.cs_params in
+      let irs = Printf.sprintf "%s %s (%s)" (string_of_str ir.is_name) (show_ll ir.is_ret) (String.concat ";" (List.map show_ll ir.is_params)) in
+      Printf.printf "IR %s | C %s %s (%s) | ABI %d | PLAN %s | %s | IRI %s\n" irs
+        (string_of_str c.cs_name) (show_c c.cs_ret) (String.concat ";" (List.map show_c c.cs_params))
+        (if ok then 1 else 0) (String.concat "," (List.map show_action plan)) runres irs
     | name :: ret :: kinds :: ps ->
       let params = List.map (fun p ->
         let r = p.[0] = 'r' in
